@@ -1903,6 +1903,103 @@ def sym_allclose(a, b, **kw):
     return wrap(b)
 
 
+def sym_transpose(a, axes=None):
+    if not _has_sym(a):
+        return _np.transpose(a, axes)
+    a = as_symarr(a)
+    if axes is None:
+        return a.transpose()
+    return a.transpose(tuple(axes))
+
+
+def sym_swapaxes(a, axis1, axis2):
+    if not _has_sym(a):
+        return _np.swapaxes(a, axis1, axis2)
+    a = as_symarr(a)
+    order = list(range(a.ndim))
+    order[axis1 % a.ndim], order[axis2 % a.ndim] = order[axis2 % a.ndim], order[axis1 % a.ndim]
+    return a.transpose(order)
+
+
+def sym_expand_dims(a, axis):
+    if not _has_sym(a):
+        return _np.expand_dims(a, axis)
+    a = as_symarr(a)
+    axes = sorted([(ax % (a.ndim + 1)) for ax in ((axis,) if isinstance(axis, int) else tuple(axis))])
+    key = [slice(None)] * a.ndim
+    for ax in axes:
+        key.insert(ax, None)
+    return a[tuple(key)]
+
+
+def sym_squeeze(a, axis=None):
+    if not _has_sym(a):
+        return _np.squeeze(a, axis)
+    a = as_symarr(a)
+    if axis is None:
+        drop = [j for j, n in enumerate(a.shape) if isinstance(n, int) and n == 1]
+        if any(isinstance(n, SymInt) for n in a.shape):
+            raise Unsupported("squeeze() without axis on symbolic extents")
+    else:
+        drop = [(ax % a.ndim) for ax in ((axis,) if isinstance(axis, int) else tuple(axis))]
+        for j in drop:
+            if not is_one(a.shape[j]):
+                raise ValueError("cannot select an axis to squeeze out which has size not equal to one")
+    return a[tuple(0 if j in drop else slice(None) for j in range(a.ndim))] if a.ndim else a
+
+
+def sym_broadcast_to(a, shape, **kw):
+    if not _has_sym(a, shape):
+        return _np.broadcast_to(a, shape, **kw)
+    a = as_symarr(a)
+    shape = _shape_tuple(shape)
+    out = broadcast_shapes(a.shape, shape)
+    if len(out) != len(shape) or not all((x is y) or same_size(x, y) for x, y in zip(out, shape)):
+        raise ValueError("operands could not be broadcast together with remapped shapes")
+    rd = _bcast_reader(a, shape)
+    # numpy returns a read-only view; modelled as a fresh array (flodym never writes through it)
+    return SymArr.fresh(shape, rd, a.kind)
+
+
+def sym_where(cond, x=None, y=None):
+    if x is None or y is None:
+        if _has_sym(cond):
+            raise Unsupported("np.where(condition) with one argument on symbolic data")
+        return _np.where(cond)
+    if not _has_sym(cond, x, y):
+        return _np.where(cond, x, y)
+    c, xa, ya = as_symarr(cond), as_symarr(x), as_symarr(y)
+    shape = broadcast_shapes(c.shape, xa.shape, ya.shape)
+    rc, rx, ry = _bcast_reader(c, shape), _bcast_reader(xa, shape), _bcast_reader(ya, shape)
+    k = _join_kind(xa.kind, ya.kind)
+    ck, xk, yk = c.kind, xa.kind, ya.kind
+    return SymArr.fresh(shape, lambda idx: z3.If(_cast_expr(rc(idx), ck, "bool"), _cast_expr(rx(idx), xk, k), _cast_expr(ry(idx), yk, k)), k)
+
+
+def sym_stack(arrays, axis=0, **kw):
+    arrays = list(arrays)
+    if not _has_sym(*arrays):
+        return _np.stack(arrays, axis=axis, **kw)
+    arrs = [as_symarr(x) for x in arrays]
+    nd = arrs[0].ndim
+    for x in arrs[1:]:
+        if x.ndim != nd or not all((p is q) or same_size(p, q) for p, q in zip(x.shape, arrs[0].shape)):
+            raise ValueError("all input arrays must have the same shape")
+    axis = axis % (nd + 1)
+    fzs = [x.frozen() for x in arrs]
+    kinds = [x.kind for x in arrs]
+    k = "real" if "real" in kinds else kinds[0]
+    shape = arrs[0].shape[:axis] + (len(arrs),) + arrs[0].shape[axis:]
+
+    def fn(idx):
+        sel = idx[axis]
+        rest = tuple(idx[:axis]) + tuple(idx[axis + 1 :])
+        vals = [_cast_expr(fz(rest), kk, k) for fz, kk in zip(fzs, kinds)]
+        return _select(vals, sel)
+
+    return SymArr.fresh(shape, fn, k)
+
+
 class _CutNdindex:
     """`for i in np.ndindex(shape)` with symbolic extents: a loop whose iterations are independent.
     Rule (the pending loop contract supplies the pieces):
@@ -1984,7 +2081,13 @@ _FUNC_IMPL = {
     _np.zeros_like: sym_zeros_like,
     _np.full_like: sym_full_like,
     _np.copy: lambda a, **kw: a.copy(),
-    _np.transpose: lambda a, axes=None: a.transpose(axes) if axes is not None else a.transpose(),
+    _np.transpose: sym_transpose,
+    _np.swapaxes: sym_swapaxes,
+    _np.expand_dims: sym_expand_dims,
+    _np.squeeze: sym_squeeze,
+    _np.broadcast_to: sym_broadcast_to,
+    _np.where: sym_where,
+    _np.stack: sym_stack,
 }
 
 _UFUNC_IMPL = {
@@ -2044,6 +2147,19 @@ class NPShim:
     allclose = staticmethod(sym_allclose)
     diag_indices = staticmethod(sym_diag_indices)
     ndindex = staticmethod(sym_ndindex)
+    transpose = staticmethod(sym_transpose)
+    swapaxes = staticmethod(sym_swapaxes)
+    expand_dims = staticmethod(sym_expand_dims)
+    squeeze = staticmethod(sym_squeeze)
+    broadcast_to = staticmethod(sym_broadcast_to)
+    where = staticmethod(sym_where)
+    stack = staticmethod(sym_stack)
+    add = staticmethod(lambda a, b: _elementwise2(a, b, lambda x, y: x + y) if _has_sym(a, b) else _np.add(a, b))
+    subtract = staticmethod(lambda a, b: _elementwise2(a, b, lambda x, y: x - y) if _has_sym(a, b) else _np.subtract(a, b))
+    multiply = staticmethod(lambda a, b: _elementwise2(a, b, lambda x, y: x * y) if _has_sym(a, b) else _np.multiply(a, b))
+    divide = staticmethod(lambda a, b: _elementwise2(a, b, lambda x, y: to_real(x) / to_real(y), "real") if _has_sym(a, b) else _np.divide(a, b))
+    true_divide = divide
+    negative = staticmethod(lambda a: (-as_symarr(a)) if _has_sym(a) else _np.negative(a))
     log = staticmethod(sym_log)
     sqrt = staticmethod(sym_sqrt)
     exp = staticmethod(sym_exp)
